@@ -75,6 +75,18 @@ def run(a):
     from crosshair.options import AnalysisOptionSet
     from crosshair.statespace import MessageType
 
+    # Never short-circuit contracted callees (CrossHair would otherwise replace calls of its
+    # own contracted builtins such as repr()/hash() - and of any contracted helper - by a fresh
+    # symbolic value behind a parallel fork, doubling the path tree at each call and
+    # weakening the check to the callee's postcondition): always call into the real code.
+    orig_consider = core.consider_shortcircuit
+
+    def consider(fn_, sig, bound, subconditions, allow_interpretation):
+        if allow_interpretation:
+            return None
+        return orig_consider(fn_, sig, bound, subconditions, allow_interpretation)
+    core.consider_shortcircuit = consider
+
     captured = []
     orig_calltree = core.analyze_calltree
 
